@@ -9,9 +9,18 @@
 (***************************************************************************)
 EXTENDS History, TraceBase
 \* calls: 1 user.get(5) 2 tag.get("abc") 3 user.get("abc") 4 tag.get(5) 5 user.find(5) 6 tag.find("abc") 7 user.find("abc") 8 tag.find(5)
-TwinOutcome == <<"int", "str", "invalid", "invalid", "int", "str", "invalid", "invalid">>
+\* - the default validator, two functions with one qualified name and DIFFERENT signatures: load(uid) / load(pid, full=False)
+\*    9 user.load{uid} 10 post.load{pid,full} 11 user.load{pid} 12 post.load{uid}
+\* - parameterless calls: 13 whoami() (context by name) 14 ping() 15 whoami2() (another method whose context has another name)
+\* - ONE function f(a, ctx=None) registered twice: 16 withctx{a,ctx} (context 'ctx': the client may not set it) 17 noctx{a,ctx}
+\*    18 withctx{a} 19 noctx{a}
+\* - a method that is re-created before every call (the old function object is dropped, its memory may be reused):
+\*    20 tmp := f(x), tmp{x}   21 tmp := f(y, z=0), tmp{y}   22 tmp := f(x), tmp{y}
+TwinOutcome == <<"int", "str", "invalid", "invalid", "int", "str", "invalid", "invalid",
+                 "ok", "ok", "invalid", "invalid", "ctx", "pong", "ctx2", "invalid", "a_and_5", "a_and_ctx", "a_and_none",
+                 "ok", "ok", "invalid">>
 TraceInit == tid \in 1..NTraces /\ l = 1 /\ InitWith("typed")
-TCall == IsEvent("Call") /\ E.c \in 1..8 /\ Serve(E.c) /\ E.outcome = TwinOutcome[E.c]
+TCall == IsEvent("Call") /\ E.c \in 1..22 /\ Serve(E.c) /\ E.outcome = TwinOutcome[E.c]
 TraceNext == TCall
 TraceConstraint == NothingRetained /\ Progress
 =============================================================================
